@@ -578,115 +578,4 @@ def monitorAdmission (evs : List Ev) (peer : String) (conns : List ConnInfo) : L
         fails := fails ++ [s!"C13 a connection from configured peer {src} to {dst} was not served"]
   return fails
 
-/-- all checks of one scenario; returns the failure clauses -/
-def checkScenario (evs : List Ev) : List String × Nat := Id.run do
-  let mut fails : List String := []
-  let mut nconns := 0
-  for e in evs do
-    if e.ev == "crash" then fails := fails ++ [s!"C05 the process running corebgp died: {e.arg 1}"]
-    if e.ev == "harness.timeout" then fails := fails ++ [s!"LIVENESS {e.arg 0}"]
-    if e.ev == "api.hang" then fails := fails ++ [s!"C10 {e.arg 0} did not return within bounded time"]
-    if e.ev == "alias" && e.arg 1 != "0" then fails := fails ++ ["C03 a delivered UPDATE slice was modified after delivery"]
-    if e.ev == "goroutines" && e.arg 0 != "0" then fails := fails ++ [s!"C10 {e.arg 0} corebgp goroutines still running after Close returned"]
-  let peers := evs.foldl (fun acc e => if e.peer != "-" && !acc.contains e.peer then acc ++ [e.peer] else acc) []
-  let closeCall := (evs.find? fun e => e.ev == "api.call" && e.arg 0 == "Close").map (·.seq)
-  let closeRet := (evs.find? fun e => e.ev == "api.ret" && e.arg 0 == "Close").map (·.seq)
-  for p in peers do
-    match cfgOf evs p with
-    | none => pure ()
-    | some (cfg, _) =>
-      let conns := connsOf evs p
-      let cbs := callbacksOf evs p
-      let segs := segments cbs
-      let delCall := (evs.find? fun e => e.peer == p && e.ev == "api.call" && e.arg 0 == "DeletePeer").map (·.seq)
-      let delRet := (evs.find? fun e => e.peer == p && e.ev == "api.ret" && e.arg 0 == "DeletePeer").map (·.seq)
-      let stopCall := match delCall, closeCall with
-        | some a, some b => some (min a b) | some a, none => some a | none, b => b
-      let stopRet := match delRet, closeRet with
-        | some a, some b => some (min a b) | some a, none => some a | none, b => b
-      let allowLocal := stopCall.isSome || evs.any fun e => e.peer == p && ((e.ev == "log.t" && e.arg 2 == "disabled") || e.ev == "log.damp")
-      nconns := nconns + conns.length
-      let tObsEnd := ((evs.find? fun e => e.seq == stopCall.getD 1000000000).map (·.t)).getD ((evs.getLast?.map (·.t)).getD 0)
-      let mut triggers : List (Nat × String) := []
-      for c in conns do
-        let ccbs := cbsForConn segs conns c
-        let v := checkConn cfg c ccbs allowLocal
-        fails := fails ++ v.fails.map fun f => s!"{f} [{p} {c.id}]"
-        fails := fails ++ (monitorHold cfg c ccbs tObsEnd).map fun f => s!"{f} [{p} {c.id}]"
-        -- damping triggers seen on the wire: a NOTIFICATION other than Cease, sent or (consumed) received
-        for (t, ty, b) in outboundTimed c do
-          if ty == 3 && b.head? != some 6 then triggers := triggers ++ [(t, s!"NOTIFICATION code {(b.headD 0).toNat} sent")]
-        match v.rcvdNotif with
-        | some (code, t) => if code != 6 then triggers := triggers ++ [(t, s!"NOTIFICATION code {code.toNat} received")]
-        | none => pure ()
-      fails := fails ++ monitorWriters evs p conns segs
-      fails := fails ++ monitorCollision evs cfg conns segs stopCall
-      fails := fails ++ monitorPacing evs p
-      fails := fails ++ monitorDamping evs p conns triggers
-      fails := fails ++ monitorAdmission evs p conns
-      -- C01: GetCapabilities once per OPEN sent, before it; OnOpenMessage at most once per connection
-      let nOpens := (conns.filter fun c => match (Spec.parseStream c.outbound).1.head? with | some (1, _) => true | _ => false).length
-      let nGetCaps := (cbs.filter (·.name == "GetCapabilities")).length
-      if nGetCaps < nOpens then fails := fails ++ [s!"C01 {nOpens} OPENs were sent but GetCapabilities was invoked only {nGetCaps} times"]
-      if nGetCaps > conns.length + (evs.filter fun e => e.peer == p && e.ev == "dial").length then
-        fails := fails ++ ["C01 GetCapabilities was invoked more often than there were connections"]
-      for sg in segs do
-        if (sg.filter (·.name == "OnOpenMessage")).length > 1 then fails := fails ++ ["C01 OnOpenMessage was invoked twice on one connection"]
-        if (sg.filter (·.name == "GetCapabilities")).length > 1 then fails := fails ++ ["C01 GetCapabilities was invoked twice on one connection"]
-      -- C01 / E.6: plugin history language
-      let h := histEvents evs p
-      if !decide (Spec.WellFormedHistory h) then
-        fails := fails ++ [s!"C01 plugin callback history of {p} is not a prefix of (E+ E- (H+ H-)* C+ C-)*"]
-      match stopRet with
-      | some r =>
-        let hBefore := histEvents (evs.filter (·.seq < r)) p
-        if !decide (Spec.CompleteHistory hBefore) then
-          fails := fails ++ [s!"C01/C10 an OnEstablished of {p} is not matched by an OnClose by the time Close/DeletePeer returned"]
-        if evs.any fun e => e.peer == p && e.seq > r && e.ev == "cb.enter" then
-          fails := fails ++ [s!"C10 a plugin callback of {p} started after Close/DeletePeer returned"]
-        for c in conns do
-          if c.ended.isNone && c.remoteClosed.isNone then
-            fails := fails ++ [s!"C10 connection {c.id} of {p} is still open after Close/DeletePeer returned"]
-      | none => pure ()
-      -- C10: Cease on every connection that was in OpenSent or later when the stop was requested
-      match stopCall with
-      | some sc =>
-        for dir in ["out", "in"] do
-          let lastT := (evs.filter fun e => e.peer == p && e.ev == "log.t" && e.arg 0 == dir && e.seq < sc).getLast?
-          match lastT with
-          | some lt =>
-            if ["openSent", "openConfirm", "established"].contains (lt.arg 2) then
-              -- the connection of that direction that was open at the time of the call
-              let cand := (conns.filter fun c => c.isOut == (dir == "out") && c.remoteClosed.isNone &&
-                (c.recvs.head?.map (fun r => decide (r.1 < sc))).getD false &&
-                !((c.endSeq.map (fun q => decide (q < sc))).getD false)).getLast?
-              match cand with
-              | some c =>
-                if !sentNotifCode c 6 then
-                  fails := fails ++ [s!"C10 connection {c.id} of {p} was in {lt.arg 2} when the stop was requested but did not receive a Cease NOTIFICATION before being closed"]
-              | none => pure ()
-          | none => pure ()
-      | none => pure ()
-  return (fails, nconns)
-
-partial def loopLive (hin hout : IO.FS.Stream) (spec : String) (evs : Array Ev) : IO Unit := do
-  let line ← hin.getLine
-  if line.isEmpty then return ()
-  let t := (line.dropEndWhile (· == (Char.ofNat 10))).toString
-  if t.startsWith "# scenario " then
-    loopLive hin hout (t.drop 11).toString #[]
-  else if t.startsWith "# end" then
-    let (fails, nconns) := checkScenario evs.toList
-    let fam := (spec.splitOn ":").headD ""
-    if fails.isEmpty then
-      hout.putStrLn s!"S {spec} ok events={evs.size} conns={nconns} branch=live/{fam}"
-    else
-      for f in fails.eraseDups do
-        hout.putStrLn s!"S {spec} FAIL {f}"
-    loopLive hin hout "" #[]
-  else
-    match parseEv t with
-    | some e => loopLive hin hout spec (evs.push e)
-    | none => loopLive hin hout spec evs
-
 end Driver
